@@ -17,7 +17,7 @@ from valida.schema import Schema
 META = {
     "rule": "(the 5 longest path shapes are combined with a 12-leaf sub-pool only) schemas of 1-2 value-kind rules: every Value / Value.length / Value.dtype callable with well-typed "
             "non-degenerate arguments x casts {none, str->bool, str->int, both in different rules} x 17 path "
-            "shapes x every document of the family; a case is one (schema, document) pair; non-trivial = at "
+            "shapes x every document of the family; plus 9 data-path arguments with datum / multiplicity modifiers (whose own resolution is undefined on unexpected documents) in 9 argument positions x 3 rule paths x {no cast, str->int}; a case is one (schema, document) pair; non-trivial = at "
             "least one rule was tested (its path exists in the document)",
     "assumptions": ["arguments are of the kinds the conditions expect (the statement's premise); ill-typed "
                     "arguments are C01's totality oracle"],
@@ -58,6 +58,22 @@ def schemas(tier):
             for a, b in itertools.combinations(SUB6, 2):
                 conds.append((op, a, b))
     out = []
+    # data-path arguments (an argument kind every comparison accepts) whose own resolution can go wrong on an
+    # unexpected document: length of an unsized node, keys of a non-mapping, `single` with several matches
+    P = T.path
+    pargs = [P((("prim", "a"),), "length"), P((("prim", "a"),), "map_keys"), P((("prim", "a"),), "map_values"),
+             P((("prim", "a"), Ls), None, "single"), P((("prim", "a"),), "dtype"), P((("prim", "a"), MOL), "length", "all"),
+             P((("prim", "a"), ("prim", "b"))), P((M,), "length", "first"), P((("prim", "a"), Ls), "map_keys", "last", "md")]
+    for pa in pargs:
+        a = ("$path", pa)
+        for c in (L("Value", "equal_to", a), L("Value", "in_", a), L("Value", "less_than", a), L("Value", "not_equal_to", a),
+                  # (no in_range position here: `1.5 in range(0, 2**62)` is a linear search in CPython -- with a bound taken
+                  # from these documents the comparison would not come back; C17 has in_range with path arguments)
+                  L("Value", "keys_contain_any_of", a, "z"), L("Value", "items_contain", q=a), L("Value", "in_", [a, 5]),
+                  L("ValueLength", "equal_to", a), ("or", L("Value", "equal_to", a), L("Value", "truthy"))):
+            for p in ((), (M,), (("prim", "a"),)):
+                for cast in ((), (("str", "int"),)):
+                    out.append(("schema", (T.rule(T.path(p), c, cast),)))
     for c in conds:
         for p in (PATHS if c in SUB6 or c in EXTRA[:6] else PATHS[:12]):
             for cast in CASTS:
